@@ -112,7 +112,7 @@ func lateReason(c *l3Case) string {
 }
 
 func judgeBudget(entry string, sp *sysPipe, r qres, edns bool) (verdict string, over bool) {
-	caps := policyCaps(sp.Policy)
+	caps := sp.Cfg
 	mode := sp.Policy.Mode
 	if r.Snap != nil {
 		// every datagram / TCP query seen upstream must have been debited first
@@ -212,7 +212,7 @@ func l3Query(f []string) vlib.Res {
 	// DNSKEY, sig.test DS: one signature, one key each; counted twice for slack) plus the per-RRset
 	// ceiling for each of the two padded RRsets (sig.test DNSKEY, the answer)
 	if c.topo.Collide > 0 && r.Snap != nil && c.main.Policy.Mode == middleware.RecursionWorkEnforce {
-		capRRset := policyCaps(c.main.Policy)[3]
+		capRRset := c.main.Cfg[3]
 		if bound := 8 + 2*capRRset; r.Snap.SignatureChecks > bound {
 			return vlib.Res{Impl: replyBrief(r), Oracle: fmt.Sprintf("FAIL sig=l3/query/dnssec-ops-past-rrset-budget signature-ops=%d bound=%d (per-RRset cap %d, %d bad RRSIGs x %d same-tag keys)",
 				r.Snap.SignatureChecks, bound, capRRset, c.topo.Pad, c.topo.Collide), Tags: tags}
